@@ -137,3 +137,17 @@ Definition window_cksums (epx : list ipixel) (off : list Z) (cs : Z) (fill : boo
   end.
 Definition all_window_cksums (n : Z) (px : list pixel) (off : list Z) (cs : Z) (fill : bool) : list (Z * Z * Z * Z) :=
   map (window_cksums (epx_of px) off cs fill) (all_windows n).
+
+(** ---- executable validity check of a stored table (hypothesis of the C03 theorems; soundness in Proofs/QueryMain.v) *)
+(** prefix sums: [acc; acc+l0; acc+l0+l1; ...] — the index index_pixels computes from the row lengths *)
+Fixpoint psums (acc : Z) (ls : list Z) : list Z :=
+  acc :: match ls with [] => [] | x :: t => psums (acc + x) t end.
+Definition rows_of (n : Z) (epx : list ipixel) : list (list ipixel) :=
+  map (fun i => filter (fun r => row (snd r) =? i) epx) (zrange 0 (Z.to_nat n)).
+Definition list_eqb {A} (eqb : A -> A -> bool) := fix go (a b : list A) : bool :=
+  match a, b with [] , [] => true | x :: a', y :: b' => eqb x y && go a' b' | _, _ => false end.
+Definition ipixel_eqb (a b : ipixel) : bool :=
+  (fst a =? fst b) && (row (snd a) =? row (snd b)) && (col (snd a) =? col (snd b)) && (val (snd a) =? val (snd b)).
+Definition valid_csr_b (n : Z) (epx : list ipixel) (off : list Z) : bool :=
+  (0 <=? n) && list_eqb ipixel_eqb epx (concat (rows_of n epx)) && list_eqb Z.eqb off (psums 0 (map zlen (rows_of n epx))).
+
